@@ -2,8 +2,8 @@ import read_common as rc
 
 ID = "C02"
 LEVEL = "proof"
-COQ_TARGETS = ["Props/Properties_C02.vo", "Extract/ExtractCore.vo"]
-PROPS_FILES = ["Props/Properties_C02.v"]
+COQ_TARGETS = ["Props/Properties_C02.vo", "Props/Properties_C02_text.vo", "Extract/ExtractCore.vo"]
+PROPS_FILES = ["Props/Properties_C02.v", "Props/Properties_C02_text.v"]
 RUNS = [rc.READ_RUN]
 EXPLANATION = ("Theorems: exact accounting of every readPtr against the traversal budget (a refusal zeroes it), total "
                "handed out <= T for any op list and for the walker; per incarnation of a reused message (Message.Reset / "
@@ -26,13 +26,26 @@ ASSUMPTIONS = ["64-bit platform; 0 <= T. 'segments <= 2^32-8 bytes' is needed on
                "budget epoch (C02_traversal_bound_epochs); 'total <= T' holds only for applications that do not call them"]
 LEVEL_TEXT = ("Proof (Coq) of the traversal and depth bounds over all messages, limits, op lists (with Reset / ResetReadLimit / "
               "Unread: per incarnation / epoch) and CAS interleavings, and for the consumers Equal, Canonicalize and deep copy; "
-              "differential run compares budget and depth values exactly. NOT proved: the bounds for text.Marshal and "
-              "pogs.Extract (see note).")
+              "differential run compares budget and depth values exactly. text.Marshal (model render_r = the encoder's walk composed with the reader model, "
+              "Text/TextRead.v): PARTIAL - bytes handed out + budget left <= budget at the start and fuel (G+3)*D+G+1 suffices on every "
+              "message incl. cyclic ones, the latter provided the walk of the schema's own default values is total "
+              "(C02_text_render_budget_partial, C02_text_render_no_fuel_partial); the dereference-count bound is not proved for it. "
+              "NOT proved: the bounds for pogs.Extract (see note).")
 LEVEL_NOTE = ("Gap, in plain words: the property says 'every recursive consumer (deep copy, canonicalise, equality, text, "
-              "extraction)'. Equal, Canonicalize and deep copy have theorems over Go-faithful models; text.Marshal and pogs.Extract "
-              "have NO C02 theorem over the reader model (their own models in coq/Text, coq/Pogs are not composed with "
+              "extraction)'. Equal, Canonicalize and deep copy have theorems over Go-faithful models. text.Marshal now has a "
+              "Go-faithful walk over the reader model (Text/TextRead.v) with, for all segment bytes, all schema_wf schemas, all T, D: "
+              "(1) C02_text_render_no_fuel_partial: with fuel >= fuel_for G D = (G+3)*D+G+1 the walk never runs out of fuel on any "
+              "message, cyclic included (every recursion through a pointer lowers depthLimit; groups are bounded by the schema's "
+              "nesting G) - under the hypothesis dflt_total that the walks of the schema's own DEFAULT values (TextM.shown_struct / "
+              "shown_list over the trusted schema message, cut by fix 4b73eba) do not run out of fuel, which is NOT proved here "
+              "(C20 has only render_total_flat_partial); (2) C02_text_render_budget_partial: budget never negative, bytes handed "
+              "out + budget left <= budget at start (<= T). NOT proved for text: successful dereferences <= T/8+1 (the walker's "
+              "argument 'each pointer slot is dereferenced once' needs a schema predicate 'no two simultaneously active pointer "
+              "fields share a slot', not stated yet; the model counts dereferences in r_d), and the model is not yet run against "
+              "text.Marshal by a differential run of its own. pogs.Extract "
+              "has NO C02 theorem over the reader model (its own model in coq/Pogs is not composed with "
               "Core/Reader.v; C19_extract_fuel_sufficient bounds pogs' recursion by the schema rank and the struct tree, not by "
-              "T and D): for them the generic walker (C02_walk_bounded) stands for the recursion and the C19 / C20 runs observe "
+              "T and D): for it the generic walker (C02_walk_bounded) stands for the recursion and the C19 run observes "
               "the budget. 'Time bounded by T': the theorems bound successful dereferences (<= T/8+1), bytes handed out (<= T) "
               "and recursion depth; the number of list-element visits and null-slot visits is not stated as a theorem (it follows "
               "from 'every list element is charged >= 8 bytes' but is not proved). "
